@@ -279,6 +279,7 @@ Plan gen_life(uint64_t seed, const string &prop) {
   p.params["prop"] = prop;
   bool conc = r.chance(0.35);
   p.seti("concurrent", conc);
+  p.seti("default_log", r.chance(0.3));
   uint64_t tag = 1;
   if (conc) {
     p.cfg.cmp = 0;
@@ -328,6 +329,8 @@ void exec_life(const Plan &p, RunOut *out) {
   {
     Life L; g_l = &L; L.p = &p;
     DbOptions opt; L.opt = &opt;
+    opt.default_info_log = p.geti("default_log", 0) != 0;
+    if (opt.default_info_log) probe("default_info_log_runs");
     if (p.geti("concurrent", 0)) concurrent_flavour(L); else single_flavour(L);
     out->nontrivial = out->probes.count("second_open_attempts") || out->probes.count("refused_open_attempts") || out->probes.count("backups") || out->probes.count("backups_concurrent") ||
                       out->probes.count("copies") || out->probes.count("destroys") || out->probes.count("copy_of_open_db") || out->probes.count("destroy_of_open_db");
